@@ -11,7 +11,8 @@ EXTENDS FatApi, TLC
 
 CONSTANTS MaxH,      \* handle values 0..MaxH-1 are tried as arguments; the generator wraps at MaxH when Wrap
           Wrap,      \* TRUE: model the 32-bit wrap of the generator in the small (finds handle reuse, finding F7)
-          LimD, LimF
+          LimD, LimF,
+          OnlyIssued  \* TRUE: only handle values that were issued at some time are used as arguments (what a typed client can do)
 
 VARIABLES hgen, lastOp
 mvars == <<dirs, ovols, odirs, ofiles, lim, hgen, lastOp>>
@@ -24,6 +25,7 @@ NN == "4e20202020202020202020"     \* "N"          missing at first
 Names == {NA, NR, ND, NN, DotN, DotDotN}
 Modes == {"ReadOnly", "Append", "Truncate", "Create", "CreateOrTruncate", "CreateOrAppend"}
 Handles == 0..(MaxH - 1)
+HandleArgs == IF OnlyIssued THEN {h \in Handles : h < hgen} ELSE Handles
 
 FileE(n, ro) == [n |-> n, k |-> "file", ro |-> ro, len |-> 1, ct |-> 1, mt |-> 1, id |-> 0, data |-> <<7>>]
 DirE(n, id) == [n |-> n, k |-> "dir", ro |-> FALSE, len |-> 0, ct |-> 1, mt |-> 1, id |-> id, data |-> <<>>]
@@ -84,11 +86,12 @@ DoMkDir(dh, nm) ==
 
 MNext ==
   \/ DoOpenVolume
-  \/ \E h \in Handles : DoCloseVolume(h) \/ DoOpenRoot(h) \/ DoCloseDir(h) \/ DoWrite(h) \/ DoRead(h) \/ DoFlushClose(h, TRUE) \/ DoFlushClose(h, FALSE)
-  \/ \E h \in Handles, nm \in Names : DoOpenDir(h, nm) \/ DoDelete(h, nm) \/ (nm \in {NN, NA} /\ DoMkDir(h, nm))
-  \/ \E h \in Handles, nm \in Names \ {DotN, DotDotN}, m \in Modes : DoOpenFile(h, nm, m)
+  \/ \E h \in HandleArgs : DoCloseVolume(h) \/ DoOpenRoot(h) \/ DoCloseDir(h) \/ DoWrite(h) \/ DoRead(h) \/ DoFlushClose(h, TRUE) \/ DoFlushClose(h, FALSE)
+  \/ \E h \in HandleArgs, nm \in Names : DoOpenDir(h, nm) \/ DoDelete(h, nm) \/ (nm \in {NN, NA} /\ DoMkDir(h, nm))
+  \/ \E h \in HandleArgs, nm \in Names \ {DotN, DotDotN}, m \in Modes : DoOpenFile(h, nm, m)
 MSpec == MInit /\ [][MNext]_mvars
-Bounded == hgen < MaxH \/ Wrap
+Bounded == (hgen < MaxH \/ Wrap) /\ Cardinality(DOMAIN dirs[1]) <= 3
+           /\ \A id \in DOMAIN dirs[1] : \A i \in 1..Len(dirs[1][id]) : Len(dirs[1][id][i].data) <= 2
 
 \* ---- C08
 AllH == [i \in 1..(Len(ovols) + Len(odirs) + Len(ofiles)) |->
